@@ -54,5 +54,9 @@ NoteOfBytes(b) == <<b[1], b[2], Dec16(SubSeq(b, 3, 4)), Dec16(SubSeq(b, 5, 6)), 
 NoteInDomain(n, cmds) == n[1] \in cmds /\ n[2] \in 0..129 /\ n[3] \in 0..65535 /\ n[4] \in 0..65535 /\ n[5] \in 0..65535
 (* pattern image: cells in row-major order *)
 Image(cells) == FlattenSeq([i \in 1..Len(cells) |-> NoteBytes(cells[i])])
+(* files written before SunVox 1.9.5.0 stored 8-bit module numbers: on load the high byte of the module column is cleared *)
+OlderVersion(v, w) == \E i \in 1..4 : v[i] < w[i] /\ \A j \in 1..(i-1) : v[j] = w[j]
+ClearModuleHigh(img) == [i \in 1..Len(img) |-> IF i % 8 = 4 THEN 0 ELSE img[i]]
+LoadedImage(img, vers) == IF OlderVersion(vers, <<1, 9, 5, 0>>) THEN ClearModuleHigh(img) ELSE img
 CellsOf(img) == [i \in 1..(Len(img) \div 8) |-> NoteOfBytes(SubSeq(img, 8 * i - 7, 8 * i))]
 =============================================================================
